@@ -25,7 +25,7 @@ func registerC15() {
 			"(message, field) entry (static agreement of entry, struct field type and constructor value) and, dynamically, one stream carrying exactly that field at profile size " +
 			"decoded under every container hosting the message (else Activity) and re-encoded when hosted; non-trivial: the entry exists and was compared",
 		Assume: []string{
-			"the bundled SDK 21.40 workbook, read by the harness's own xlsx reader, is the independent source for field numbers and names; table entries newer than 21.40 are only checked for type/constructor consistency",
+			"the bundled SDK 21.40 workbook, read by the harness's own xlsx reader, is the independent source for field numbers and names; the 23 table entries newer than 21.40 are compared with ref/sdk21115.go, a list written down at development time and reviewed by hand against the SDK 21.115 profile (a pinned record, not a second derivation)",
 		},
 		MinNontrivial: 300,
 		Shards:        1,
@@ -292,11 +292,40 @@ func c15Workbook(c *lib.Ctx, perMesg map[uint16][]fit.VerifField) {
 		matched++
 		c.Nontrivial([]byte(fmt.Sprintf("workbook %d.%d", m, r.Num)))
 	}
+	// Entries the 21.40 workbook does not have: the hand-reviewed list for SDK 21.115.
+	pinned := map[uint32]string{}
+	for _, x := range ref.SDK21115Extra {
+		pinned[ref.Key(x.Mesg, x.Num)] = x.Name
+	}
+	strict := fit.ProfileMajorVersion == 21 && fit.ProfileMinorVersion == 115
 	newer := 0
 	for _, es := range perMesg {
 		for _, e := range es {
-			if !seen[ref.Key(e.Mesg, e.Num)] {
-				newer++
+			k := ref.Key(e.Mesg, e.Num)
+			if seen[k] {
+				continue
+			}
+			newer++
+			name, ok := pinned[k]
+			pf := prof.Field(e.Mesg, e.Slot)
+			switch {
+			case !strict:
+				c.Count("entries_without_independent_source_(other_sdk_version)", 1)
+			case !ok:
+				c.Violation(nil, "message %d field %d is in the lookup table, but neither SDK 21.40 nor the reviewed list of SDK 21.115 additions has such a field", e.Mesg, e.Num)
+			case pf != nil && lib.FieldName(e.Mesg, pf.Sindex) != ref.CamelCase(name):
+				c.Violation(nil, "message %d field %d: SDK 21.115 calls it %s, the table maps it to struct field %s", e.Mesg, e.Num, name, lib.FieldName(e.Mesg, pf.Sindex))
+			default:
+				c.Nontrivial([]byte(fmt.Sprintf("pinned %d.%d", e.Mesg, e.Num)))
+				c.Count("entries_matched_against_the_reviewed_21.115_list", 1)
+			}
+		}
+	}
+	if strict {
+		for _, x := range ref.SDK21115Extra {
+			if prof.Known[x.Mesg] && prof.Field(x.Mesg, x.Num) == nil {
+				// a field the product profile no longer selects is not a mapping error; counted only
+				c.Count("reviewed_21.115_fields_absent_from_the_table", 1)
 			}
 		}
 	}
